@@ -192,6 +192,20 @@ impl Ctx {
     pub fn is_frozen(&self) -> bool {
         self.frozen
     }
+    /// For checks that want to continue past a listed known finding inside one case: counts the
+    /// hit and returns Pass if `f` is listed (and not in strict replay), otherwise hands `f` back.
+    pub fn note_known(&mut self, f: &Failure) -> Verdict {
+        if !self.strict && self.known.lookup(self.property, &f.signature).is_some() {
+            if !self.frozen {
+                if !self.known_hits.contains_key(&f.signature) {
+                    self.known_hits.insert(f.signature.clone(), (0, f.message.clone(), Value::Null));
+                }
+                self.known_hits.get_mut(&f.signature).unwrap().0 += 1;
+            }
+            return Verdict::Pass;
+        }
+        Verdict::Fail(f.clone())
+    }
 
     /// Book-keeping around one case. Returns the verdict to hand to the driver
     /// (known findings are turned into passes unless strict).
